@@ -189,6 +189,14 @@ func init() {
 					break
 				}
 			}
+			// one time in six the members are wide: a value in each of 70..150 consecutive chunks
+			// below the chosen keys (the bulk paths of the merges start at 64 keys)
+			// (decided from the base key, not from a fresh draw: the other five sixths of the
+			// scenarios stay exactly what they were)
+			wideN := uint64(0)
+			if h := uint64(base) * 2654435761; (h>>9)%6 == 0 && base > 200 {
+				wideN = 70 + (h>>20)%80
+			}
 			m := 3 + r.Intn(len(w.B)-3)
 			perm := make([]int, len(w.B))
 			for i := range perm {
@@ -202,6 +210,9 @@ func init() {
 			var steps []Step
 			for _, b := range members {
 				steps = append(steps, Step{Op: "clear", S: []int{b}})
+				if wideN > 0 {
+					steps = append(steps, Step{Op: "addmany", S: []int{b}, A: []uint64{uint64(base) - wideN - uint64(b*7), 7, wideN, uint64(base)*31 + uint64(b)}})
+				}
 				for _, key := range keys {
 					if r.Chance(1, 2) {
 						steps = append(steps, w.kindSteps(r, b, key)...)
@@ -221,6 +232,9 @@ func init() {
 			} else {
 				dst := perm[len(perm)-1]
 				steps = append(steps, Step{Op: "agg", S: append([]int{dst}, list...), A: []uint64{uint64(r.Intn(7)), uint64(workerPool[r.Intn(len(workerPool))])}})
+			}
+			if wideN > 0 {
+				w.probe("parlist-scenario-wide")
 			}
 			w.pending = append(w.pending, steps[1:]...)
 			w.probe("parlist-scenario")
